@@ -188,7 +188,7 @@ def run_one(sim, params):
             m = model[side]
             live = [s for s in socks[side] if not s["closed"]]
             op = sim.wpick("op", [(4, "socket"), (8 if not exhaust else 16, "bind"), (2, "listen"), (2, "serve"), (3, "connect"),
-                                  (3, "sendto"), (2, "recvfrom"), (3, "resolve"), (4 if not exhaust else 2, "close")])
+                                  (3, "sendto"), (2, "recvfrom"), (3, "resolve"), (1, "resolve2"), (4 if not exhaust else 2, "close")])
             if op == "close" and sim.chance("reclose", 0.25):
                 dead = [x for x in socks[side] if x["closed"]]
                 if dead:
@@ -372,6 +372,39 @@ def run_one(sim, params):
                                             "history %r" % (name, side, r[1], want, hist[-12:]))
                         sim.probe("resolve.checked")
                     note("resolve", "bound" if want else "absent", str(r[1]))
+            elif op == "resolve2":
+                # two application threads resolve different names that are not cached yet, overlapping in time
+                pm = model[other[side]]
+                bound = sorted(n for n in pm.snl if n not in resolved[side])
+                ucount[0] += 1
+                names = [b"urn:nfc:xsn:dsim.x:q%d" % ucount[0]]
+                ucount[0] += 1
+                names.append(bound[0] if bound and sim.chance("resolve2.bound", 0.6) else b"urn:nfc:xsn:dsim.x:q%d" % ucount[0])
+                res2 = {}
+
+                def one(n):
+                    res2[n] = call(llc[side].resolve, n)
+                t1 = k.spawn(one, names[0], name="resolver-a", daemon=True)
+                kernel.TIME.sleep(sim.pick("resolve2.gap", [0.0, 0.001, 0.004, 0.012]))
+                t2 = k.spawn(one, names[1], name="resolver-b", daemon=True)
+                end = k.now() + 3.0
+                while (t1.state != kernel.DONE or t2.state != kernel.DONE) and k.now() < end:
+                    kernel.TIME.sleep(0.005)
+                for t, n in ((t1, names[0]), (t2, names[1])):
+                    if t.exc is not None:
+                        raise Violation("resolve-raised", core.exc_site(t.exc), "concurrent resolve(%r) raised %r (%s); history %r"
+                                        % (n, t.exc, core.exc_line(t.exc), hist[-8:]))
+                    if n not in res2:
+                        raise Violation("resolve-hangs", "resolve2", "concurrent resolve(%r) did not return within 3 s; history %r"
+                                        % (n, hist[-8:]))
+                    want = pm.snl.get(n, 0)
+                    if res2[n][0] == "ok":
+                        if res2[n][1] != want:
+                            raise Violation("resolve", "wrong address (concurrent)", "concurrent resolve(%r) on side %s returned %r, "
+                                            "the peer has it at %r; history %r" % (n, side, res2[n][1], want, hist[-8:]))
+                        resolved[side][n] = (res2[n][1], pm.name_changes.get(n, 0))
+                        sim.probe("resolve.concurrent")
+                note("resolve2", "bound" if names[1] in pm.snl else "absent", str([res2.get(n, ("?",))[-1] for n in names]))
             elif op == "connect":
                 if s["typ"] != "dlc" or s["listening"] or s["peer"] is not None:
                     continue
